@@ -630,6 +630,9 @@ _SEED_RULE = {
     "C09-ps2-left-sweep-uses-left-bond-limit": "bond-limit", "C10-ps-ode-backward-sign-imag-time": "solver-sibling", "C11-2site-rdm-path-bra-not-conjugated": "state-network",
     "C13-ttns-to-complex-shares-buffers": "copy-complete", "C16-reorganisation-energy-ground-frequency": "holstein-square", "C17-one-term-bond-operator-loses-coefficient": "out-ops-shape",
     "C05-compress-recursion-drops-temporary-limit": "compress-sweep",
+    "C01-small-factor-terms-dropped": "term-validation", "C03-distance-clamps-small-distances": "prefactor", "C06-mpdm-apply-uses-operator-labels": "qn-",
+    "C08-direct-solver-transpose-symmetrisation": "eigen-selection", "C12-vmf-root-projected": "pack-unpack", "C14-mpdm-load-returns-mps": "chain-round-trip",
+    "C15-opsum-add-empty-returns-self": "operand-order", "C19-rkf45-weights-interleaved": "order-condition",
 }
 _sd = _os.path.join(_V, "seeded")
 for _name in sorted(_os.listdir(_sd)):
